@@ -21,6 +21,7 @@ let () =
   register "clixread" (fun tk -> match tk with
     | _ :: _name :: f :: u :: now :: _ ->
       let bytes = bytes_of_hex (match kvget tk "hex" with Some h -> h | None -> "-") in
+      (match image_handle bytes with Some hh -> set_file _name (Some hh) | None -> ());
       (match open_image bytes with
        | None -> obs "wtmeta openerr"; obs "wt openerr"; obs "gwmeta openerr"; obs "gw openerr"
        | Some (h, arcs) ->
